@@ -32,7 +32,7 @@ func (t *FnTrans) run() (err error) {
 	t.declare(q("$alloc@0"), "Int")
 	t.entry.H["$alloc"] = q("$alloc@0")
 	t.cur.H["$alloc"] = q("$alloc@0")
-	t.emit("(assert (> " + q("$alloc@0") + " 0))")
+	t.emit("(assert (> " + q("$alloc@0") + " 1000))") // addresses 1..1000 are reserved for package-level variables
 	t.findLoops()
 	t.computeLoopWrites()
 	t.collectLocals()
@@ -65,6 +65,9 @@ func (t *FnTrans) run() (err error) {
 		n := q("fv$" + fv.Name())
 		t.declare(n, t.sortOf(T))
 		v := Val{S: n}
+		if _, ok := T.Underlying().(*types.Signature); ok {
+			v.Nm = fv.Name()
+		}
 		t.vals[fv] = v
 		t.paramVals[fv.Name()] = v
 		t.paramTypes[fv.Name()] = T
@@ -592,6 +595,13 @@ func (t *FnTrans) instr(in ssa.Instruction) {
 			t.nilCheck(p.Ref, "store through nil pointer")
 		}
 		t.checkGuarded(p, true)
+		if p.Kind != "cell" || !t.isLocalAlloc(x.Addr) {
+			if t.sortOf(x.Val.Type()) == "Int" {
+				if _, isInt := intInfoOf(t.resolve(x.Val.Type())); !isInt {
+					t.mayHavePublished = true
+				}
+			}
+		}
 		t.store(p, t.term(x.Val))
 	case *ssa.Slice:
 		t.sliceOp(x)
@@ -700,6 +710,18 @@ func (t *FnTrans) instr(in ssa.Instruction) {
 	default:
 		t.fail("unsupported instruction %T: %s", in, in)
 	}
+}
+
+func (t *FnTrans) isLocalAlloc(v ssa.Value) bool {
+	_, ok := v.(*ssa.Alloc)
+	return ok
+}
+
+func originOf(T types.Type) types.Type {
+	if n, ok := T.(*types.Named); ok {
+		return n.Origin()
+	}
+	return T
 }
 
 func (t *FnTrans) allocRef() string {
@@ -943,11 +965,9 @@ func (t *FnTrans) unop(x *ssa.UnOp) {
 		}
 		t.checkGuarded(p, false)
 		// sentinel error globals are constants
-		if p.Kind == "global" {
-			if g, ok := x.X.(*ssa.Global); ok && t.eng.isSentinelGlobal(g) {
-				t.vals[x] = Val{S: t.sentinel(g.Pkg.Pkg.Path() + "." + g.Name())}
-				return
-			}
+		if g, ok := x.X.(*ssa.Global); ok && t.eng.isSentinelGlobal(g) {
+			t.vals[x] = Val{S: t.sentinel(g.Pkg.Pkg.Path() + "." + g.Name())}
+			return
 		}
 		T := t.resolve(x.Type())
 		t.bind(x, t.load(p))
@@ -956,6 +976,25 @@ func (t *FnTrans) unop(x *ssa.UnOp) {
 			v := t.vals[x]
 			v.Fn = fv.Fn
 			t.vals[x] = v
+		}
+		if fvv, ok := x.X.(*ssa.FreeVar); ok {
+			if _, isSig := T.Underlying().(*types.Signature); isSig {
+				v := t.vals[x]
+				v.Nm = fvv.Name() // captured function variable: callback contract by its name
+				t.vals[x] = v
+			}
+		}
+		if fa, ok := x.X.(*ssa.FieldAddr); ok {
+			if _, isSig := T.Underlying().(*types.Signature); isSig {
+				// function-typed field: remember which, for type-level callback contracts
+				if pt, ok := t.resolve(fa.X.Type()).Underlying().(*types.Pointer); ok {
+					if st, ok := t.resolve(pt.Elem()).Underlying().(*types.Struct); ok {
+						v := t.vals[x]
+						v.Nm = "field:" + typeName(originOf(t.resolve(pt.Elem()))) + "." + st.Field(fa.Field).Name()
+						t.vals[x] = v
+					}
+				}
+			}
 		}
 	case token.NOT:
 		t.bind(x, not(t.term(x.X)))
@@ -1250,7 +1289,35 @@ func (t *FnTrans) ret(x *ssa.Return) {
 		t.oblige("nopanic", not(e0.evalBool(t.ct.PanicsIf.E)), "returns normally only when the panic condition is false")
 	}
 	for i, c := range t.ct.Ensures {
-		t.obligeNamed(fmt.Sprintf("post.%d", i+1)+t.retSuffix(), "post", env.evalBool(c.E), c.Text)
+		goal := env.evalBool(c.E)
+		name := fmt.Sprintf("post.%d", i+1) + t.retSuffix()
+		if sp, ok := t.ct.Opts["split"]; ok {
+			// proof hint: case split on an integer expression; the cases are exhaustive by construction
+			// (lo..hi one by one, plus "outside lo..hi"), so the conjunction of the cases is the obligation
+			var ex string
+			var lo, hi int
+			if n, _ := fmt.Sscanf(sp, "%s %d %d", &ex, &lo, &hi); n == 3 {
+				pe, err := ParseExpr(ex)
+				if err != nil {
+					t.fail("opt split: %v", err)
+				}
+				v := t.selfEnv(t.entry, t.entry).evalInt(pe)
+				saveG := t.guard
+				for k := lo; k <= hi; k++ {
+					t.guard = and(saveG, eq(v, fmt.Sprint(k)))
+					o := &Obligation{Name: t.oblPrefix() + "::" + name + fmt.Sprintf("/case%d", k), Kind: "post", NLines: len(t.lines), Guard: t.guard, Goal: goal, Expect: "unsat", Fn: t.oblPrefix(), Note: c.Text + fmt.Sprintf("   [case %s == %d]", ex, k), Pos: t.eng.prog.Fset.Position(x.Pos())}
+					t.obls = append(t.obls, o)
+				}
+				t.guard = and(saveG, or(app("<", v, fmt.Sprint(lo)), app(">", v, fmt.Sprint(hi))))
+				o := &Obligation{Name: t.oblPrefix() + "::" + name + "/rest", Kind: "post", NLines: len(t.lines), Guard: t.guard, Goal: goal, Expect: "unsat", Fn: t.oblPrefix(), Note: c.Text + fmt.Sprintf("   [case %s outside %d..%d]", ex, lo, hi), Pos: t.eng.prog.Fset.Position(x.Pos())}
+				t.obls = append(t.obls, o)
+				t.guard = saveG
+				t.assume(goal)
+				continue
+			}
+			t.fail("opt split: expected '<expr> <lo> <hi>'")
+		}
+		t.obligeNamed(name, "post", goal, c.Text)
 	}
 	t.frameCheck()
 }
